@@ -104,6 +104,50 @@ CHECKS = [
         "note": "Finalization on failure is required as soon as the failing call has raised, not at garbage collection "
                 "(the registry holds strong references, so the __del__ fallback does not mask a missing finalize).",
     },
+    {
+        "property_id": "C02",
+        "technique": "property-based testing: block renders executed on a terminal model and compared exactly with a documentation-derived pixel reference",
+        "text": "Generated block renders (nine modes, alpha None/threshold/'#'/hex, terminal background known/unknown, "
+                "kitty workaround, split cells, up to 24x12 cells, exact-size and resampled, alpha transitions inside "
+                "colour runs) are executed on the terminal model; the half-cell colours read back are compared exactly "
+                "with a reference built from the documented conversion, threshold and compositing rules; determinism, "
+                "split-cells equivalence and uniformity are checked as metamorphic relations.",
+        "note": "Trusts Pillow convert/BOX resize/alpha_composite and vf.vt; the kitty BG+-1 nudge is accepted only on "
+                "halves painted with a cell background equal to the known terminal background.",
+    },
+    {
+        "property_id": "C03",
+        "technique": "property-based testing + enumerated chunk-boundary family; raw protocol framing tokeniser and decoded-pixel comparison",
+        "text": "Generated kitty and iTerm2 renders plus an enumerated chunk-boundary family (payloads of exactly 3072k+d "
+                "bytes, raw and zlib) are tokenised from the raw string; chunk framing, control keys, payload length and "
+                "decoded pixels (LINES strips stitched) are judged exactly against the pixel reference; read-from-file, "
+                "JPEG and native-animation payload rules are checked against the source bytes.",
+        "note": "Trusts vf/proto.py's reading of the kitty/iTerm2 protocols, Pillow decoders, zlib/base64; JPEG/WebP "
+                "re-encodes judged on format and size only; WHOLE resolution only lower-bounded.",
+    },
+    {
+        "property_id": "C12",
+        "technique": "property-based testing on a real pty with a scripted terminal responder and a virtual clock (generated reply schedules)",
+        "text": "The library talks to a real pty; the master side answers OSC 10/11, XTVERSION, DA1, XTWINOPS and kitty "
+                "queries according to a generated profile and a generated reply schedule under a virtual clock "
+                "(patched select/monotonic). Every query function and the support/auto-selection logic is compared "
+                "with a documentation-derived reference; after each call no reply byte may remain unread and waiting "
+                "is bounded by the timeout; disabled queries must send nothing.",
+        "note": "Replies are written as units with total delay per query below the timeout (the property's domain); "
+                "virtual time replaces real sleeping; kernel pty/termios are real.",
+    },
+    {
+        "property_id": "C17",
+        "technique": "property-based testing with per-canvas exhaustive sub-rectangle enumeration; rows executed on the terminal model and compared with the crop of the full canvas",
+        "text": "Generated image/style/identity/size/alignment/upscale/alpha configurations are rendered through the "
+                "urwid widget; every sub-rectangle of canvases up to 12x8 cells (structured + sampled above) is requested "
+                "via canvas.content() and CompositeCanvas trimming; each yielded row is executed on a one-line terminal "
+                "model (exact column advance, SGR reset, no bleed) and compared cell for cell with the crop of the "
+                "untrimmed canvas, itself anchored to an independent render placed by reference padding arithmetic; "
+                "flow rows() == rendered rows.",
+        "note": "Trusts vf.vt, vf.ref.padding, the plain BlockImage render (judged by C01/C02) and urwid's "
+                "CompositeCanvas trimming.",
+    },
 ]
 
 NOT_APPLICABLE = [
